@@ -112,7 +112,20 @@ SEGS = ['a.txt', 'sub', 'b.bin', 'deep', 'c', '.', '..', '', '...', 'secret.txt'
 NSEG = len(SEGS)
 # the 9 segments that matter most, for 3- and 4-segment requests in the quick tier
 CORE = [0, 1, 2, 5, 6, 7, 9, 11, 18]
+# file names that are not in Unicode normal form C next to their precomposed twins (different content), and a second,
+# unrelated static application whose root has other bytes under the same relative names
+NAMES2 = ['cafe\u0301.txt', 'caf\u00e9.txt', '\u2126.txt', '\u03a9.txt', 're\u0301p/f.txt', 'r\u00e9p/f.txt', 'a.txt', 'sub/b.bin', 'noext', 'only-here.txt']
+for i, rel in enumerate(NAMES2[:6]):
+    p = os.path.join(TREE_ROOT, rel)
+    os.makedirs(os.path.dirname(p), exist_ok=True)
+    open(p, 'wb').write(b'name-%d' % i)
+OTHER_ROOT = os.path.join(_TMP, 'other')
+os.makedirs(os.path.join(OTHER_ROOT, 'sub'), exist_ok=True)
+open(os.path.join(OTHER_ROOT, 'a.txt'), 'wb').write(b'OTHER-alpha')
+open(os.path.join(OTHER_ROOT, 'only-here.txt'), 'wb').write(b'OTHER-only')
 _STATIC = StaticApplication([TREE_ROOT, ROOT2])
+_OTHER = StaticApplication([OTHER_ROOT])
+_OTHER_APP = Application([('/o/', _OTHER)])
 _APP = Application([('/static/', _STATIC)])
 _STRICT = Application([('/s/', _STATIC)], slash_mode='strict')
 
@@ -408,3 +421,46 @@ def ob_binary(b0: int, b1: int) -> bool:
         data = bytes(([] if b0 == 256 else [b0]) + ([] if b1 == 8 else [(b1 * 37 + 5) % 256]))
         printable = set([7, 8, 9, 10, 12, 13, 27] + list(range(32, 256)))
         return is_binary_string(data) == any(x not in printable for x in data)
+
+
+# ------------------------------------------------------------------ every file at its own path, byte for byte; applications do not share lookups
+def _expect(roots, rel):
+    for root in roots:
+        cand = os.path.join(root, rel)
+        if os.path.isfile(cand):
+            return open(cand, 'rb').read()
+    return None
+
+
+def _faithful(name_i, order, via):
+    """the same relative name is requested from two unrelated static applications (in either order, twice): each answers
+    from its OWN search directories only - the exact bytes of its own file, or 404"""
+    from werkzeug.urls import url_quote
+    rel = NAMES2[name_i]
+    plan = [(_APP, '/static/', _STATIC, [TREE_ROOT, ROOT2]), (_OTHER_APP, '/o/', _OTHER, [OTHER_ROOT])]
+    if order:
+        plan.reverse()
+    for app, prefix, static, roots in plan + plan:
+        want = _expect(roots, rel)
+        if via == 0:
+            resp = app.get_local_client().get(prefix + url_quote(rel, safe='/'))
+        else:
+            try:
+                resp = static.get_file_response(rel.split('/'), Request(EnvironBuilder(path='/').get_environ()))
+            except HTTPException as e:
+                resp = e
+        if want is None:
+            if resp.status_code != 404:
+                return False
+        elif resp.status_code != 200 or resp.get_data() != want:
+            return False
+    return True
+
+
+def ob_faithful(name_i: int, order: int, via: int) -> bool:
+    with untraced():
+        return _faithful(name_i, order, via)
+
+
+def confirm_faithful(name_i, order, via):
+    return not _faithful(name_i, order, via)
